@@ -204,4 +204,38 @@ func Check(in Input) {
 			vrt.Assert(bytes.HasPrefix(digest[strip:], prefix), "fsck-key-carries-stored-prefix", "where", w, "bucket", b)
 		}
 	}
+	if vrt.Param("orphans", 0) != 0 {
+		// No orphans (C11/C13): in a store that never crashed, every complete, non-deleted
+		// primary record is named by a live index entry or by a freelist entry (pool, file,
+		// hand-over file) - otherwise nothing can ever release it.
+		for f := uint64(ph.FirstFile); ; f++ {
+			pdata, ok := readFile(in.PrimaryBase + "." + strconv.FormatUint(f, 10))
+			if !ok {
+				break
+			}
+			for off := uint64(0); off+4 <= uint64(len(pdata)); {
+				psize := binary.LittleEndian.Uint32(pdata[off:])
+				n := uint64(psize &^ delBit)
+				if off+4+n > uint64(len(pdata)) {
+					break // incomplete tail
+				}
+				if psize&delBit == 0 {
+					abs := f*pfs + off
+					named := false
+					for _, l := range allLocs {
+						if l.Offset == abs {
+							named = true
+						}
+					}
+					for _, l := range freed {
+						if l.Offset == abs {
+							named = true
+						}
+					}
+					vrt.Assert(named, "fsck-no-orphan-primary-record", "where", w, "file", int(f), "offset", int(off))
+				}
+				off += 4 + n
+			}
+		}
+	}
 }
